@@ -10,7 +10,7 @@ readme = open(os.path.join(seed, "README.md")).read()
 m = re.search(r"go test[^\n`]*-run\s+(\S+)\s+(\./\S+)", readme)
 assert m, "no go test command in README"
 run, pkg = m.group(1), m.group(2).rstrip("`").rstrip("/")
-kind = {"s1": "s1-interleaving", "s2": "s2-fault-or-sequence", "s3": "s3-two-sites"}[sn]
+kind = {"s1": "s1-interleaving", "s2": "s2-fault-or-sequence", "s3": "s3-two-sites"}.get(sn, sn.replace("_", "-"))
 name = "%s-r7-%s" % (prop, kind)
 demos = [f for f in os.listdir(seed) if f.endswith("_test.go") or (f.endswith(".go") and f != "patch.diff")]
 pairs = ",".join("%s:%s/%s" % (f, pkg[2:], f) for f in demos)
